@@ -233,7 +233,13 @@ def parse_template(path, specs_dir, seen=None, contracts_only=False):
             cur.rewrites.extend(d[len('rewrites '):].split())
         elif d.startswith('sub '):
             a, b = d[4:].split(' => ', 1)
-            cur.subs.append((a.strip(), b.strip()))
+            cur.subs.append((a.strip(), b.strip(), None))
+        elif d.startswith('sub_unless_gone '):
+            # `sub_unless_gone <guard> :: <regex> => <repl>`: like `sub`, but when <regex> does not match AND the
+            # item no longer contains <guard> at all, the construct was removed (not reshaped): go on without it
+            g, rest = d[len('sub_unless_gone '):].split(' :: ', 1)
+            a, b = rest.split(' => ', 1)
+            cur.subs.append((a.strip(), b.strip(), g.strip()))
         elif d.startswith('closure '):
             mo = re.match(r'^closure\s+(\d+)\s+(returns|ensures)\s+(.*)$', d)
             if not mo:
@@ -602,9 +608,12 @@ def process_item(repo, spec, mutations=None, force_false=False):
         if mvis:
             text = text[:mvis.end(1)] + 'pub ' + text[mvis.end(1):]
             log['R12c'] = 1
-    for a, b in spec.subs:
+    for a, b, guard in spec.subs:
         text2, c = re.subn(a, b, text)
         if c == 0:
+            if guard is not None and not re.search(guard, text):
+                log['per-item-gone:' + a] = 1
+                continue
             raise UnitError('lost anchor: per-item rewrite %r did not match in %s' % (a, spec.id))
         text = text2
         log['per-item:' + a] = c
